@@ -232,12 +232,14 @@ theorem Bushing.speeds_meaning {c0 c1 c2 s0 s1 s2 : K} (h0 : Trig c0 s0) (h1 : T
 section Quat
 variable [CharZero K]
 
+omit [CharZero K] in
 /-- the coded normalise-then-`setRotationFromQuaternion` is the documented rotation `v ↦ e v e*`, `e = q/|q|` -/
 theorem Ball.code_eq_doc_quat (q : Q4 K) (oon : K) : Ball.Xq q oon = Ball.docXq q oon := by
   simp only [Ball.Xq, Ball.docXq, Ball.docRq, rotQuat]; mob_unfold; ring_all
 theorem Ball.Xq_isRot (q : Q4 K) (oon : K) (h : oon * oon * Q4.normSq q = 1) : IsRot (Ball.Xq q oon).R := by
   apply rotQuat_isRot
   simp only [Q4.normSq, Q4.smul] at h ⊢; linear_combination h
+omit [CharZero K] in
 theorem Ball.code_eq_doc_euler (c0 c1 c2 s0 s1 s2 : K) : Ball.Xe c0 c1 c2 s0 s1 s2 = Gimbal.docX c0 c1 c2 s0 s1 s2 :=
   Gimbal.code_eq_doc c0 c1 c2 s0 s1 s2
 
@@ -282,13 +284,16 @@ theorem Ball.speeds_meaning_euler {c0 c1 c2 s0 s1 s2 ooc1 : K} (h0 : Trig c0 s0)
   refine ⟨?_, ?_⟩
   · have t := docR_turns (c2 := c2) (s2 := s2) h0 h1 (bodyXYZ_N_P c0 s0 s1 ooc1 w); unfold Turns at t; simp only [t, docRJet_re, hN]
   · mob_unfold
+omit [CharZero K] in
 theorem Ball.fitU_roundtrip (u0 u1 u2 : K) : Ball.fitU (Hmul Ball.H [u0, u1, u2]) = [u0, u1, u2] := by
   simp only [Ball.fitU, Ball.H]; mob_unfold; ring_all
 
+omit [CharZero K] in
 theorem Free.code_eq_doc_quat (q : Q4 K) (oon : K) (p : V3 K) : Free.Xq q oon p = Free.docXq q oon p := by
   obtain ⟨x, y, z⟩ := p
   simp only [Free.Xq, Free.docXq, ← Ball.code_eq_doc_quat, Ball.Xq, Xf.mul, M33.one_mul, Xf.mk.injEq, true_and]
   mob_unfold; ring_all
+omit [CharZero K] in
 theorem Free.code_eq_doc_euler (c0 c1 c2 s0 s1 s2 : K) (p : V3 K) :
     Free.Xe c0 c1 c2 s0 s1 s2 p = Free.docXe c0 c1 c2 s0 s1 s2 p := Bushing.code_eq_doc c0 c1 c2 s0 s1 s2 p
 theorem Free.Xq_isRot (q : Q4 K) (oon : K) (p : V3 K) (h : oon * oon * Q4.normSq q = 1) : IsRot (Free.Xq q oon p).R :=
@@ -307,6 +312,7 @@ theorem Free.speeds_meaning_quat (q : Q4 K) (r : K) (p w v : V3 K) :
   have e : V3.add v (V3.zero : V3 K) = v := by obtain ⟨vx, vy, vz⟩ := v; mob_unfold; ring_all
   simp only [e] at hb
   exact hb
+omit [CharZero K] in
 theorem Free.fitU_roundtrip (u0 u1 u2 u3 u4 u5 : K) :
     Free.fitU (Hmul Free.H [u0, u1, u2, u3, u4, u5]) = [u0, u1, u2, u3, u4, u5] := by
   simp only [Free.fitU, Free.H, Ball.H]; mob_unfold; ring_all
@@ -352,14 +358,12 @@ theorem SphericalCoords.shiftC_jet {sg : K} (hs : sg * sg = 1) (c s co so u : K)
     SphericalCoords.shiftC (Jet.const sg) (Jet.cosL c s u) (Jet.sinL c s u) (Jet.const co) (Jet.const so)
       = Jet.cosL (SphericalCoords.shiftC sg c s co so) (SphericalCoords.shiftS sg c s co so) (sg * u) := by
   apply Jet.ext' <;> simp only [SphericalCoords.shiftC, SphericalCoords.shiftS] <;> jet_simp
-  · ring1
-  · linear_combination (-(s * co * u)) * hs
+  linear_combination (s * co * u) * hs
 theorem SphericalCoords.shiftS_jet {sg : K} (hs : sg * sg = 1) (c s co so u : K) :
     SphericalCoords.shiftS (Jet.const sg) (Jet.cosL c s u) (Jet.sinL c s u) (Jet.const co) (Jet.const so)
       = Jet.sinL (SphericalCoords.shiftC sg c s co so) (SphericalCoords.shiftS sg c s co so) (sg * u) := by
   apply Jet.ext' <;> simp only [SphericalCoords.shiftC, SphericalCoords.shiftS] <;> jet_simp
-  · ring1
-  · linear_combination (-(s * so * u)) * hs
+  linear_combination (s * so * u) * hs
 
 /-- `u = q̇`: signed azimuth rate about Fz, signed zenith rate about the current My, signed radial rate -/
 theorem SphericalCoords.speeds_meaning (P : SphericalCoords.Par K) {c0 s0 c1 s1 : K} (q2 u0 u1 u2 : K)
@@ -396,13 +400,13 @@ theorem SphericalCoords.speeds_meaning (P : SphericalCoords.Par K) {c0 s0 c1 s1 
     refine ⟨?_, ?_⟩
     · rw [tR, reR]; simp only [rotAxis_ez, rotZ, rotZY]; mob_unfold; ring_all
     · have ez : (V3.ez : V3 (Jet K)) = V3.const V3.ez := rfl
-      rw [ez, hp, reR]; simp only [rotAxis_ez, rotZ, rotZY]; mob_unfold; ring_all
+      rw [← ez] at hp; rw [hp, reR]; simp only [rotAxis_ez, rotZ, rotZY]; mob_unfold; ring_all
   · simp only [if_true]
     have hp := (show Turns _ _ from tR).smul_mulVec_eps (Jet.const gt * Jet.var q2 u2) V3.ex
     refine ⟨?_, ?_⟩
     · rw [tR, reR]; simp only [rotAxis_ez, rotZ, rotZY]; mob_unfold; ring_all
     · have ex : (V3.ex : V3 (Jet K)) = V3.const V3.ex := rfl
-      rw [ex, hp, reR]; simp only [rotAxis_ez, rotZ, rotZY]; mob_unfold; ring_all
+      rw [← ex] at hp; rw [hp, reR]; simp only [rotAxis_ez, rotZ, rotZY]; mob_unfold; ring_all
 
 /-! ## CantileverFreeBeam -/
 theorem Cantilever.code_eq_doc (L defl disp c0 c1 c2 s0 s1 s2 q0 q1 : K) :
